@@ -351,6 +351,9 @@ func vfC03GenCfg(rt *rapid.T, thorough bool) *vfxCfg {
 	if thorough && rapid.IntRange(0, 7).Draw(rt, "pool-timeout") == 0 {
 		c.PoolTimeout = "120s" // never reached; see vfC03KeyTimeoutStream
 	}
+	// a mirrorPool gets copies of the requests that carry the mirror header (recorded apart by the
+	// rig): the selected backend must still receive the whole request
+	c.Mirror = rapid.IntRange(0, 3).Draw(rt, "mirrorPool") == 0
 	return c
 }
 
@@ -776,6 +779,10 @@ func TestVerifC03Forward(t *testing.T) {
 				// the case its own key, so that a hit can only come from a repetition of the same request
 				q.RawPath = fmt.Sprintf("/i%d", i) + q.RawPath
 			}
+			mirrored := cfg.Mirror && rapid.IntRange(0, 3).Draw(rt, "mirrored") != 0
+			if mirrored {
+				q.E2E = append(q.E2E, [2]string{vfxMirrorHeader, "1"})
+			}
 			if cfg.RetryAttempts > 0 {
 				// statuses listed as failure codes end the pipeline flow: keep them for the scripted failures
 				if p.Status == 502 || p.Status == 503 {
@@ -863,6 +870,8 @@ func TestVerifC03Forward(t *testing.T) {
 					"route-cache-on": cfg.CacheSize > 0, "repeated-request": rep > 0, "repeated-request-route-cache-on": rep > 0 && cfg.CacheSize > 0,
 					"retry-policy": cfg.RetryAttempts > 0, "retry-after-failed-attempts": len(p.Pre) > 0, "retry-after-failed-attempts-with-body": len(p.Pre) > 0 && q.BodyN > 0,
 					"backend-cuts-body": p.Cut, "backend-cuts-body-stream": p.Cut && vfC03RespStream(cfg), "backend-cuts-body-stream-recoded": p.Cut && vfC03RespStream(cfg) && (cfg.RespAdaptor != "" || vfC03CompressApplies(cfg, &q, &p)),
+					"mirrorPool": cfg.Mirror, "mirrored-request": mirrored, "mirrored-request-with-body": mirrored && q.BodyN > 0, "mirrored-stream-request-with-body": mirrored && q.BodyN > 0 && vfC03ReqStream(cfg),
+					"mirrored-request:copy-seen-by-mirror-server": mirrored && len(rig.mirrored()) > 0,
 					"memoryCache": cfg.MemCache != nil, "memoryCache-repeated-cacheable-request": cacheable && rep > 0,
 					"memoryCache-hit(backend-not-contacted)":         cacheable && rep > 0 && len(seen) == 0,
 					"memoryCache-3rd+-repetition-behind-respadaptor": cacheable && rep >= 2 && cfg.RespAdaptor != ""} {
